@@ -283,4 +283,3 @@ func c15MirrorDiff(c, want c15Snap, prim c15Snap) string {
 	}
 	return ""
 }
-
